@@ -201,6 +201,21 @@ def evaluate(cs, rep, tier):
                 counter.append({"input": g["col"].impl_line()[:400], "expected": f"byte {g['j']} of packet ({s1},{e1}) at T = {t} equals the T = 1 packet of that column", "observed": str(d5), "oracle": "column independence"})
                 break
     nt = len(set(c.key() for c in slab if c.args[0] >= 2 and c.tag == "valid"))
+    # big symbols / big blocks (release): column independence evaluated inside the harness (data drawn from a seed
+    # there): symbols of 4 KiB .. 64 KiB, blocks whose intermediate symbols exceed 4 MiB / 16 MiB, columns on both
+    # sides of every power of two and of the 64-byte vector width
+    rb = C.Rng(C.get_seed()).fork("C09big")
+    shapes = [(80, 60000), (1000, 4104), (26, 16384 + 8), (300, 16400)] if tier == "quick" else \
+             [(80, 60000), (1000, 4104), (26, 16384 + 8), (300, 16400), (10, 65528), (2000, 4100), (520, 32768), (101, 20000), (12, 40001)]
+    bigc = []
+    for (k, t) in shapes:
+        cols = sorted(set([0, 1, 63, 64, 65, t - 1, t - 2] + [c for p2 in (4096, 8192, 16384, 32768) for c in (p2 - 1, p2, p2 + 1) if c < t] + [rb.below(t) for _ in range(6)]))
+        bigc.append(C.Case("col_indep", [k, t, 3, rb.below(1 << 32)] + cols))
+    for c, r in zip(bigc, C.run_impl_crashsafe(bigc, "release", chunk=1, timeout=900)):
+        tk = r.split()
+        bad = [col for col, v in zip(c.args[4:], tk[1:]) if v != "1"] if tk[0] == "1" else None
+        if bad is None or bad:
+            counter.append({"input": c.impl_line(), "expected": "byte j of every packet at symbol size T equals the one-byte packet of byte column j", "observed": ("panic / crash: " + r[:60]) if bad is None else f"columns {bad[:8]} differ", "profile": "release", "oracle": "C09 column independence (K=%d, T=%d)" % (c.args[0], c.args[1])})
     return {"disagreements": dis, "counterexamples": counter,
             "stats": {"evaluations": len(slab) * 4 + len(flat), "distinct_nontrivial": nt,
                       "samples": [slab[0].impl_line()[:200] + " ... -> " + impl_s[0][:80]],
